@@ -19,12 +19,20 @@
    [capture_no_panic_patience] (under SameTotal of the uniqueness oracles),
    [capture_valid_all] etc. for all three algorithms, and the observation
    [AlgSim_patience_false] that Pipeline.AlgSim cannot hold for Patience as
-   stated (it has no premise on the uniqueness oracles). *)
+   stated (it has no premise on the uniqueness oracles); [AlgSimAt] is AlgSim
+   at one argument tuple and [patience_sim_at] proves it for Patience whenever
+   one of the two runs succeeds.
+
+   Independently, section [RecWorld] redoes the validity argument of
+   Proofs/Patience.v (invariants P / J without the anchor ghost state, partial
+   correctness only) over an arbitrary [Recording] world and proves the
+   premise itself: [PatienceRaw_proved : PatienceRaw]. *)
 From Similar Require Import Model.Base Model.Utils Model.Myers Model.Lcs Model.Hooks
   Model.Patience Model.Compact Model.Capture
   Spec.Script Spec.EditGraph Spec.SnakeSpec Check.Script
   Proofs.Utils Proofs.CheckScript Proofs.Replace Proofs.ReplaceLoose Proofs.WorldInv
-  Proofs.Unique Proofs.Patience Proofs.Pipeline.
+  Proofs.MyersSnake Proofs.MyersConquer Proofs.Unique Proofs.PatienceGen Proofs.Patience
+  Proofs.Pipeline.
 
 Local Open Scope nat_scope.
 
@@ -616,7 +624,346 @@ Proof.
   - apply capture_no_panic; [discriminate|assumption..].
 Qed.
 
+(* ====================================================================== *)
+(* PatienceRaw: the validity argument of Proofs/Patience.v on ANY          *)
+(* recording world (partial correctness; no assumption that emit succeeds) *)
+(* ====================================================================== *)
+Lemma Respects_no_finish {W} (wd : world W) cmp I :
+  Respects wd cmp I -> Respects (no_finish wd) cmp I.
+Proof.
+  intros HR. split.
+  - exact (rs_probe wd cmp I HR).
+  - exact (rs_tick wd cmp I HR).
+  - exact (rs_eq wd cmp I HR).
+  - exact (rs_del wd cmp I HR).
+  - exact (rs_ins wd cmp I HR).
+Qed.
+
+Lemma flush_del_ins_changes rs : Forall IsChange (fst (tr_flush_del_ins rs)).
+Proof.
+  unfold tr_flush_del_ins.
+  destruct (r_del rs) as [[[dO dl] dn]|]; destruct (r_ins rs) as [[[io inn] il]|];
+    cbn [fst]; repeat constructor.
+Qed.
+
+Section RecWorld.
+  Context {W : Type}.
+  Variable wd : world W.
+  Variable calls : W -> list call.
+  Variable Pf : W -> Prop.
+  Hypothesis HRec : Recording wd calls Pf.
+  Variable cmp : cmpf.
+
+  (* the frame holds and the recorded calls grew by a prefix walk *)
+  Definition PreG (is js i0s : nat) (wS : W) (i j i0 : nat) (w : W) : Prop :=
+    Pf w /\ exists ext, calls w = calls wS ++ ext /\ RawPre cmp is js i0s i j i0 ext.
+
+  Lemma PreG_init is js i0s wS : Pf wS -> PreG is js i0s wS is js i0s wS.
+  Proof. intros HP. split; [exact HP|]. exists []. split; [now rewrite app_nil_r|apply RP_nil]. Qed.
+
+  Lemma Respects_preG is js i0s wS : Respects wd cmp (PreG is js i0s wS).
+  Proof.
+    split.
+    - intros i j i0 w b w' (HP & ext & Hc & Hp) H.
+      destruct (rc_probe wd calls Pf HRec w b w' HP H) as [HP' Hc'].
+      split; [exact HP'|]. exists ext. rewrite Hc'. auto.
+    - intros i j i0 w k (HP & ext & Hc & Hp).
+      destruct (rc_tick wd calls Pf HRec k w HP) as [HP' Hc'].
+      split; [exact HP'|]. exists ext. rewrite Hc'. auto.
+    - intros i j i0 w l w' (HP & ext & Hc & Hp) Hl Hseg H.
+      destruct (rc_emit wd calls Pf HRec (CEq i j l) w w' I HP H) as [HP' Hc'].
+      split; [exact HP'|]. exists (ext ++ [CEq i j l]). split.
+      + rewrite Hc', Hc. now rewrite app_assoc.
+      + now apply RP_eq with (i0 := i0).
+    - intros i j i0 w l w' (HP & ext & Hc & Hp) Hl H.
+      destruct (rc_emit wd calls Pf HRec (CDel i l j) w w' I HP H) as [HP' Hc'].
+      split; [exact HP'|]. exists (ext ++ [CDel i l j]). split.
+      + rewrite Hc', Hc. now rewrite app_assoc.
+      + now apply RP_del.
+    - intros i j i0 w o l w' (HP & ext & Hc & Hp) Hl Ho1 Ho2 H.
+      destruct (rc_emit wd calls Pf HRec (CIns o j l) w w' I HP H) as [HP' Hc'].
+      split; [exact HP'|]. exists (ext ++ [CIns o j l]). split.
+      + rewrite Hc', Hc. now rewrite app_assoc.
+      + now apply RP_ins.
+  Qed.
+
+  Lemma PT_rec w w' : PT wd w w' -> Pf w -> Pf w' /\ calls w' = calls w.
+  Proof.
+    intros Hpt HP. induction Hpt as [w|w w1 b w2 Hpt IH Hp|w w1 k Hpt IH].
+    - auto.
+    - destruct (IH HP) as [HP1 Hc1].
+      destruct (rc_probe wd calls Pf HRec w1 b w2 HP1 Hp) as [HP2 Hc2].
+      split; [exact HP2|congruence].
+    - destruct (IH HP) as [HP1 Hc1].
+      destruct (rc_tick wd calls Pf HRec k w1 HP1) as [HP2 Hc2].
+      split; [exact HP2|congruence].
+  Qed.
+
+  Variables uo un : list nat.
+  Variables os oe ns ne : nat.
+  Variable w0 : W.
+  Hypothesis Hoe : os <= oe.
+  Hypothesis Hne : ns <= ne.
+  Hypothesis Htot : CmpTotal cmp os oe ns ne.
+  Hypothesis Huo : Asc uo.
+  Hypothesis Hun : Asc un.
+  Hypothesis Huo_r : forall a x, nth_error uo a = Some x -> os <= x < oe.
+  Hypothesis Hun_r : forall a x, nth_error un a = Some x -> ns <= x < ne.
+
+  Let PWg : world (pstate * W) := patience_world wd cmp uo un oe ne.
+  Let ucmpg : cmpf := unique_cmp cmp uo un.
+
+  (* a Myers run (with or without the finish call) continues a prefix walk *)
+  Lemma myers_from (wd' : world W) a b i0 oe' ne' w w' body :
+    (forall is js i0s wS, Respects wd' cmp (PreG is js i0s wS)) ->
+    Pf w -> calls w = calls w0 ++ body -> RawPre cmp os ns os a b i0 body ->
+    i0 <= a -> a <= oe' -> b <= ne' -> CmpTotal cmp a oe' b ne' ->
+    myers_diff wd' cmp a oe' b ne' w = Ok w' ->
+    exists w'' i0' body',
+      i0' <= oe' /\ Pf w'' /\ calls w'' = calls w0 ++ body' /\
+      RawPre cmp os ns os oe' ne' i0' body' /\ emit wd' CFin w'' = Ok w'.
+  Proof.
+    intros HR HP Hc Hpre Hi0 Ha Hb Htot' Hm.
+    destruct (myers_respects_gen wd' cmp (PreG a b i0 w) (HR a b i0 w) (snake_spec _ wd' cmp)
+                a oe' b ne' i0 w w' Ha Hb Htot' Hi0 (PreG_init a b i0 w HP) Hm)
+      as (w'' & i0' & Hi0' & (HP' & ext & Hc' & Hpre') & Hfin).
+    exists w'', i0', (body ++ ext). split; [exact Hi0'|]. split; [exact HP'|].
+    split; [rewrite Hc', Hc; now rewrite app_assoc|]. split; [|exact Hfin].
+    eapply RawPre_trans; eassumption.
+  Qed.
+
+  (* Patience-level invariant (Proofs/Patience.v's P without the anchor ghost) *)
+  Definition PG (k l : nat) (sw : pstate * W) : Prop :=
+    Pf (snd sw) /\
+    exists body c0,
+      calls (snd sw) = calls w0 ++ body /\
+      RawPre cmp os ns os (old_current (fst sw)) (new_current (fst sw)) c0 body /\
+      c0 <= old_current (fst sw) /\
+      AtCursor uo un os ns k l (old_current (fst sw)) (new_current (fst sw)).
+
+  Lemma PG_mono k l k' l' sw : k <= k' -> l <= l' -> PG k l sw -> PG k' l' sw.
+  Proof.
+    intros Hk Hl (HP & body & c0 & H1 & H2 & H3 & H4). split; [exact HP|]. exists body, c0.
+    repeat split; try assumption.
+    destruct H4 as [H4|(k0 & l0 & Hk0 & Hl0 & H4)]; [now left|].
+    right. exists k0, l0. split; [lia|]. split; [lia|exact H4].
+  Qed.
+
+  Lemma PG_init : Pf w0 -> PG 0 0 ({| old_current := os; new_current := ns |}, w0).
+  Proof.
+    intros HP. split; [exact HP|]. exists [], os. cbn [fst snd old_current new_current].
+    split; [now rewrite app_nil_r|]. split; [apply RP_nil|]. split; [lia|]. now left.
+  Qed.
+
+  Lemma anchor_step_G k l ps w oi ni ps' w' :
+    PG k l (ps, w) -> nth_error uo k = Some oi -> nth_error un l = Some ni ->
+    anchor_step wd cmp uo un k l (ps, w) = Ok (ps', w') ->
+    PG (S k) (S l) (ps', w').
+  Proof.
+    intros (HP & body & c0 & Hlog & Hpre & Hc0 & Hat) Hk Hl H. cbn [fst snd] in *.
+    unfold anchor_step in H. rewrite Hk, Hl in H. cbn [of_option bind] in H.
+    set (oc := old_current ps) in *. set (nc := new_current ps) in *.
+    destruct (AtCursor_bounds uo un os oe ns ne Hoe Hne Huo_r Hun_r _ _ _ _ Hat) as [Hoc Hnc].
+    destruct (AtCursor_le uo un os oe ns ne Hoe Hne Huo Hun Huo_r Hun_r _ _ _ _ k l oi ni Hat
+                (le_n _) (le_n _) Hk Hl) as [Hoi Hni].
+    pose proof (Huo_r _ _ Hk) as Hoir. pose proof (Hun_r _ _ Hl) as Hnir.
+    destruct (advance_spec wd cmp (oi - oc) oi ni oc nc w (le_n _))
+      as (d & w1 & Hadv & Hseg & Hd1 & Hd2 & Hpt & _).
+    { intros i j Hi Hj. apply Htot; lia. }
+    specialize (Hd1 Hoi). specialize (Hd2 Hni).
+    rewrite Hadv in H. cbn [bind] in H.
+    destruct (PT_rec _ _ Hpt HP) as [HP1 Hc1].
+    apply bind_Ok_inv in H. destruct H as (w2 & He & H).
+    apply bind_Ok_inv in H. destruct H as (w3 & Hm & H).
+    injection H as <- <-.
+    assert (H2 : Pf w2 /\ exists body1 i1,
+                   calls w2 = calls w0 ++ body1 /\
+                   RawPre cmp os ns os (oc + d) (nc + d) i1 body1 /\ i1 <= oc + d).
+    { destruct (oc <? oc + d) eqn:E.
+      - apply Nat.ltb_lt in E. replace (oc + d - oc) with d in He by lia.
+        destruct (rc_emit wd calls Pf HRec (CEq oc nc d) w1 w2 I HP1 He) as [HP2 Hc2].
+        split; [exact HP2|]. exists (body ++ [CEq oc nc d]), (oc + d).
+        split; [rewrite Hc2, Hc1, Hlog; now rewrite app_assoc|]. split; [|lia].
+        eapply RP_eq; [lia|exact Hseg|exact Hpre].
+      - apply Nat.ltb_ge in E. assert (d = 0) by lia. subst d.
+        injection He as <-. split; [exact HP1|]. exists body, c0. rewrite !Nat.add_0_r.
+        split; [now rewrite Hc1|]. split; [exact Hpre|lia]. }
+    destruct H2 as (HP2 & body1 & i1 & Hc2 & Hpre2 & Hi1).
+    destruct (myers_from (no_finish wd) (oc + d) (nc + d) i1 oi ni w2 w3 body1) as
+      (w'' & i0' & body' & Hi0' & HP'' & Hc'' & Hpre'' & Hfin); try assumption.
+    { intros is js i0s wS. apply Respects_no_finish, Respects_preG. }
+    { eapply CmpTotal_sub; [exact Htot|lia..]. }
+    cbn [emit no_finish] in Hfin. injection Hfin as <-.
+    split; [exact HP''|]. exists body', i0'. cbn [fst snd old_current new_current].
+    split; [exact Hc''|]. split; [exact Hpre''|]. split; [exact Hi0'|].
+    right. exists k, l. repeat split; try assumption; lia.
+  Qed.
+
+  Lemma anchor_loop_G : forall len k l sw sw',
+    PG k l sw -> SegEq ucmpg k l len ->
+    anchor_loop wd cmp uo un len k l sw = Ok sw' ->
+    PG (k + len) (l + len) sw'.
+  Proof.
+    induction len as [|len IH]; intros k l sw sw' HP Hseg H; cbn [anchor_loop] in H.
+    - injection H as <-. now rewrite !Nat.add_0_r.
+    - apply bind_Ok_inv in H. destruct H as ([ps1 w1] & Hs & H). destruct sw as [ps w].
+      destruct (ucmp_true_inv cmp uo un k l) as (oi & ni & Hk & Hl & _).
+      { specialize (Hseg 0 ltac:(lia)). now rewrite !Nat.add_0_r in Hseg. }
+      pose proof (anchor_step_G k l ps w oi ni ps1 w1 HP Hk Hl Hs) as HP1.
+      replace (k + S len) with (S k + len) by lia.
+      replace (l + S len) with (S l + len) by lia.
+      apply (IH (S k) (S l) (ps1, w1) sw' HP1); [|exact H].
+      intros t Ht. replace (S k + t) with (k + S t) by lia.
+      replace (S l + t) with (l + S t) by lia. apply Hseg. lia.
+  Qed.
+
+  Lemma PW_changes_G o sw : Forall IsChange o -> emit_all PWg o sw = Ok sw.
+  Proof.
+    induction 1 as [|c o Hc Ho IH]; cbn [emit_all]; [reflexivity|].
+    destruct c; try contradiction; cbn [emit PWg patience_world patience_emit bind]; exact IH.
+  Qed.
+
+  Lemma PW_flush_G u v u0 rs sw sw' :
+    Inv ucmpg u v u0 rs -> PG (ek rs u) (el rs v) sw ->
+    emit_all PWg (fst (tr_flush_eq rs)) sw = Ok sw' -> PG u v sw'.
+  Proof.
+    intros HI HP H.
+    destruct HI as [Hi0|eo en el0 Hel Heo Hen Hpseg Hi0|dl0 Hdl Hdo|inn il Hil Hi0 Hinn
+                   |dl0 dn io inn il Hdl Hil Hdo Hinn];
+      cbn [tr_flush_eq r_eq fst ek el emit_all] in *;
+      try (injection H as <-; exact HP).
+    cbn [emit PWg patience_world patience_emit] in H.
+    apply bind_Ok_inv in H. destruct H as (sw1 & Hl & H). injection H as <-.
+    pose proof (anchor_loop_G el0 eo en sw sw1 HP Hpseg Hl) as HP'.
+    now rewrite Heo, Hen in HP'.
+  Qed.
+
+  Lemma PW_finish_G k l ps w ps' w' :
+    PG k l (ps, w) -> emit PWg CFin (ps, w) = Ok (ps', w') ->
+    exists w'' body,
+      Pf w'' /\ calls w'' = calls w0 ++ body /\ RawWalk cmp oe ne os ns os body /\
+      emit wd CFin w'' = Ok w'.
+  Proof.
+    intros (HP & body & c0 & Hlog & Hpre & Hc0 & Hat) H. cbn [fst snd] in *.
+    cbn [emit PWg patience_world patience_emit] in H.
+    apply bind_Ok_inv in H. destruct H as (w3 & Hm & H). injection H as _ <-.
+    destruct (AtCursor_bounds uo un os oe ns ne Hoe Hne Huo_r Hun_r _ _ _ _ Hat) as [Hoc Hnc].
+    destruct (myers_from wd (old_current ps) (new_current ps) c0 oe ne w w3 body) as
+      (w'' & i0' & body' & Hi0' & HP'' & Hc'' & Hpre'' & Hfin); try assumption; try lia.
+    { intros is js i0s wS. apply Respects_preG. }
+    { eapply CmpTotal_sub; [exact Htot|lia..]. }
+    exists w'', body'. split; [exact HP''|]. split; [exact Hc''|]. split; [|exact Hfin].
+    eapply RawPre_walk. exact Hpre''.
+  Qed.
+
+  (* ---- the compound world Replace<Patience<wd>> ---- *)
+  Variable dbg : bool.
+  Let RWg : world (rstate * (pstate * W)) := replace_world PWg dbg.
+
+  Definition JG (u v u0 : nat) (x : rstate * (pstate * W)) : Prop :=
+    Inv ucmpg u v u0 (fst x) /\ PG (ek (fst x) u) (el (fst x) v) (snd x).
+
+  Lemma PG_frame k l ps w w1 : Pf w1 -> calls w1 = calls w -> PG k l (ps, w) -> PG k l (ps, w1).
+  Proof.
+    intros HP1 Hc1 (HP & body & c0 & H1 & H2). split; [exact HP1|]. exists body, c0.
+    cbn [fst snd] in *. split; [now rewrite Hc1|exact H2].
+  Qed.
+
+  Lemma Respects_JG : Respects RWg ucmpg JG.
+  Proof.
+    split.
+    - intros u v u0 [rs [ps w]] b x' [HI HP] Hp. cbn [fst snd] in *.
+      unfold RWg, PWg, replace_world, patience_world, lift_probe in Hp. cbn [probe fst snd] in Hp.
+      destruct (probe wd w) as [b' w1] eqn:Ep. injection Hp as _ <-.
+      destruct (rc_probe wd calls Pf HRec w b' w1 (proj1 HP) Ep) as [HP1 Hc1].
+      split; cbn [fst snd]; [exact HI|]. eapply PG_frame; eassumption.
+    - intros u v u0 [rs [ps w]] k [HI HP]. cbn [fst snd] in *.
+      destruct (rc_tick wd calls Pf HRec k w (proj1 HP)) as [HP1 Hc1].
+      split; cbn [fst snd tick RWg replace_world lift_tick PWg patience_world]; [exact HI|].
+      eapply PG_frame; eassumption.
+    - intros u v u0 [rs sw] l x' [HI HP] Hl Hseg He. cbn [fst snd] in *.
+      destruct (step_eq ucmpg (u + l) (v + l) u v u0 l rs HI Hl Hseg (le_n _) (le_n _))
+        as (o1 & s1 & Hstep & HI1 & _ & _).
+      destruct (step_eq_shape dbg _ _ _ _ _ _ (Hstep dbg)) as [Hch Hreq].
+      cbn [emit RWg replace_world] in He. rewrite replace_emit_step, (Hstep dbg) in He.
+      unfold run_trace in He. cbn [fst snd] in He. rewrite (PW_changes_G _ _ Hch) in He.
+      cbn [bind] in He. injection He as <-.
+      split; cbn [fst snd]; [exact HI1|].
+      unfold ek, el in *. rewrite Hreq. destruct (r_eq rs) as [[[eo en] el0]|]; exact HP.
+    - intros u v u0 [rs sw] l x' [HI HP] Hl He. cbn [fst snd] in *.
+      destruct (step_del ucmpg 0 0 u v u0 l rs HI Hl) as (o1 & s1 & Hstep & HI1 & _ & _).
+      destruct (step_del_shape dbg _ _ _ _ _ _ (Hstep dbg)) as [Ho1 Hreq]. subst o1.
+      cbn [emit RWg replace_world] in He. rewrite replace_emit_step, (Hstep dbg) in He.
+      unfold run_trace in He. cbn [fst snd] in He.
+      apply bind_Ok_inv in He. destruct He as (sw' & Hfl & He). injection He as <-.
+      pose proof (PW_flush_G u v u0 rs sw sw' HI HP Hfl) as HP'.
+      split; cbn [fst snd]; [exact HI1|]. unfold ek, el. rewrite Hreq.
+      eapply PG_mono; [| |exact HP']; lia.
+    - intros u v u0 [rs sw] o l x' [HI HP] Hl Ho1 Ho2 He. cbn [fst snd] in *.
+      destruct (step_ins ucmpg 0 0 u v u0 o l rs HI Hl Ho1 Ho2) as (o1 & s1 & Hstep & HI1 & _ & _).
+      destruct (step_ins_shape dbg _ _ _ _ _ _ (Hstep dbg)) as [Ho Hreq]. subst o1.
+      cbn [emit RWg replace_world] in He. rewrite replace_emit_step, (Hstep dbg) in He.
+      unfold run_trace in He. cbn [fst snd] in He.
+      apply bind_Ok_inv in He. destruct He as (sw' & Hfl & He). injection He as <-.
+      pose proof (PW_flush_G u v u0 rs sw sw' HI HP Hfl) as HP'.
+      split; cbn [fst snd]; [exact HI1|]. unfold ek, el. rewrite Hreq.
+      eapply PG_mono; [| |exact HP']; lia.
+  Qed.
+
+  Lemma J_fin_G u v u0 x rs' ps' w' :
+    JG u v u0 x -> emit RWg CFin x = Ok (rs', (ps', w')) ->
+    exists w'' body,
+      Pf w'' /\ calls w'' = calls w0 ++ body /\ RawWalk cmp oe ne os ns os body /\
+      emit wd CFin w'' = Ok w'.
+  Proof.
+    destruct x as [rs sw]. intros [HI HP] H. cbn [fst snd] in *.
+    unfold RWg in H. rewrite replace_fin_eq in H.
+    apply bind_Ok_inv in H. destruct H as (sw1 & Hpre & H).
+    apply bind_Ok_inv in H. destruct H as ([ps2 w2] & Hfin & H). injection H as _ <- <-.
+    unfold fin_pre in Hpre. rewrite emit_all_app in Hpre.
+    apply bind_Ok_inv in Hpre. destruct Hpre as (sw0 & Hfl & Hch).
+    rewrite (PW_changes_G _ _ (flush_del_ins_changes _)) in Hch. injection Hch as <-.
+    pose proof (PW_flush_G u v u0 rs sw sw0 HI HP Hfl) as HP'. destruct sw0 as [ps0 w1].
+    eapply PW_finish_G; eassumption.
+  Qed.
+
+  Lemma outer_valid_G rs' ps' w' :
+    Pf w0 ->
+    myers_diff RWg ucmpg 0 (length uo) 0 (length un)
+               (rstate0, ({| old_current := os; new_current := ns |}, w0)) = Ok (rs', (ps', w')) ->
+    exists w'' body,
+      Pf w'' /\ calls w'' = calls w0 ++ body /\ RawWalk cmp oe ne os ns os body /\
+      emit wd CFin w'' = Ok w'.
+  Proof.
+    intros HP0 H.
+    assert (HJ0 : JG 0 0 0 (rstate0, ({| old_current := os; new_current := ns |}, w0))).
+    { split; cbn [fst snd]; [now apply Inv_none|exact (PG_init HP0)]. }
+    destruct (myers_respects RWg ucmpg JG 0 (length uo) 0 (length un) _ _
+                Respects_JG (snake_spec _ RWg ucmpg) (Nat.le_0_l _) (Nat.le_0_l _)
+                (CmpTotal_ucmp cmp uo un os oe ns ne Hoe Hne Htot Huo_r Hun_r) HJ0 H)
+      as (x'' & u0 & _ & HJ & Hfin).
+    eapply J_fin_G; eassumption.
+  Qed.
+End RecWorld.
+
+(* the premise of Pipeline.v's Patience theorems *)
+Theorem PatienceRaw_proved : PatienceRaw.
+Proof.
+  intros W wd calls Pf dbg orc os oe ns ne w w' HRec Ho Hn Htot HPw H.
+  unfold patience_diff in H.
+  apply bind_Ok_inv in H. destruct H as (uo & Huo & H).
+  apply bind_Ok_inv in H. destruct H as (un & Hun & H).
+  apply bind_Ok_inv in H. destruct H as ([rs' [ps' w1]] & Hm & H).
+  injection H as <-.
+  destruct (unique_asc (o_oo orc) os oe uo Huo) as [Ha1 Hr1].
+  destruct (unique_asc (o_nn orc) ns ne un Hun) as [Ha2 Hr2].
+  destruct (outer_valid_G wd calls Pf HRec (o_on orc) uo un os oe ns ne w Ho Hn Htot
+              Ha1 Ha2 Hr1 Hr2 dbg rs' ps' w1 HPw Hm) as (w'' & body & HP'' & Hc & Hwalk & Hfin).
+  exists w'', body. auto.
+Qed.
+
 Print Assumptions patience_diff_finsim.
+Print Assumptions PatienceRaw_proved.
 Print Assumptions AlgSim_patience_false.
 Print Assumptions capture_diff_eq_patience.
 Print Assumptions CaptureRaw_patience_proved.
